@@ -183,7 +183,8 @@ func CheckStreams(c *Ctx, t *Tun, v *TunVerdict, oracle string, wantComplete boo
 		}
 		// (a client that ended its request body ended the tunnel: what the host still had to
 		// say need not arrive)
-		if len(clientGot) != len(hostSent) && p.EndBody == 0 {
+		clientClosed := len(p.Pkts) > 0 && p.Pkts[len(p.Pkts)-1].Kind == KClose
+		if len(clientGot) != len(hostSent) && p.EndBody == 0 && !clientClosed {
 			failf(c, oracle, sig("client-stream-incomplete"), "%s/%s: after the drain the client has %d of the %d bytes the host produced", p.Name, p.Transport, len(clientGot), len(hostSent))
 			return sv
 		}
@@ -329,6 +330,26 @@ func runC06(c *Ctx) {
 	// the host may end the connection itself: close after its last write (everything it wrote
 	// must still reach the client) or reset in the middle of its script
 	hostEnd := c.T.Weighted(5, 1, 1)
+	// a host that is slow to take data (its connection's send side is full for 2-10 s) while
+	// the client sends everything and then closes the channel: nothing the client sent before
+	// its close may be lost
+	slowHost := hostEnd == 0 && c.T.Bool(1, 5)
+	if slowHost {
+		p.Pkts = append(p.Pkts, PClose())
+		d += " slow-host-then-client-closes"
+	}
+	if p.Transport == "ws" && !slowHost && c.T.Bool(1, 6) {
+		// everything the client has to say in ONE websocket message (may exceed 128 KiB)
+		tot := 0
+		for _, pk := range p.Pkts {
+			tot += len(pk.Bytes)
+		}
+		p.Segs = [][2]int{{0, tot}}
+		d += fmt.Sprintf(" all-in-one-message(%d bytes)", tot)
+		if tot > 131072 {
+			c.S.Count("probe.ws_message_over_128k")
+		}
+	}
 	if nt > 1 {
 		d += " || alongside " + buildStreamPlan(c, tw, tw.Plans[1], 1+c.T.Choose(8), 1+c.T.Choose(8), 9000, 9000, false)
 		c.S.Count("probe.second_tunnel_alongside")
@@ -346,6 +367,35 @@ func runC06(c *Ctx) {
 			d += fmt.Sprintf(" host-resets-after-%d-writes", h.ResetAfter)
 		}
 	}
+	if slowHost {
+		t0 := tw.Tuns[0]
+		var held []*sim.End
+		released := false
+		c.S.AddActor("F slow host on", func() bool {
+			if released || len(held) > 0 {
+				return false
+			}
+			for _, hc := range t0.HostConns() {
+				if hc.End != nil && hc.End.Peer != nil {
+					return true
+				}
+			}
+			return false
+		}, func() {
+			for _, hc := range t0.HostConns() {
+				hc.End.Peer.HoldWrites = true
+				held = append(held, hc.End.Peer)
+			}
+			c.S.Count("fault.host.slow_to_read")
+		})
+		c.S.AddActor("F slow host off", func() bool { return len(held) > 0 && !released && t0.SentAll() && c.S.PendingDials() == 0 }, func() {
+			released = true
+			c.S.Advance(time.Duration(2+c.T.Choose(9)) * time.Second)
+			for _, e := range held {
+				e.HoldWrites = false
+			}
+		})
+	}
 	RunTunnels(c, tw.Tuns, 40000)
 	t := tw.Tuns[0]
 	for _, x := range tw.Tuns {
@@ -355,6 +405,12 @@ func runC06(c *Ctx) {
 		}
 	}
 	v := CheckTunnel(c, t, tw.MC, "C06")
+	if vi := c.S.Viol; vi != nil && vi.Oracle == "C16" && (vi.Sig == "valid-step-unanswered" || vi.Sig == "valid-step-refused") {
+		// the history of this scenario is a valid one: if the gateway does not take it, the
+		// client's stream is not carried to the host
+		vi.Oracle, vi.Sig = "C06", "stream-not-carried:"+vi.Sig
+		vi.Msg = d + ": " + vi.Msg
+	}
 	if vi := c.S.Viol; vi != nil && vi.Oracle == "C09" && vi.Sig == "torn-frame" {
 		// a stream the client cannot frame any more: what it was sent is not the host's stream
 		vi.Oracle = "C06"
@@ -391,8 +447,30 @@ func runC07(c *Ctx) {
 	tw := PlanTunnels(c, TunOpts{N: n, Transports: []string{"ws", "legacy"}, IDFormat: idf})
 	// two tunnels may target the same machine on different ports, one of which is down
 	samePair := [2]int{-1, -1}
-	// (at most one of the three special situations below per run)
-	special := c.T.Weighted(5, 2, 2, 2)
+	// (at most one of the special situations below per run)
+	special := c.T.Weighted(5, 2, 2, 2, 1, 1)
+	if special == 4 && n >= 2 {
+		// users authenticated at HTTP level (NTLM) whose names and connection ids run into each
+		// other when written one after the other: ("ops","7f3e-1") and ("ops7","f3e-1")
+		tw.NTLM = true
+		a, b := tw.Plans[0], tw.Plans[1]
+		a.Transport, b.Transport = "legacy", "legacy"
+		a.User, b.User = "ops", "ops7"
+		tail := fmt.Sprintf("f3e-%d", c.Res.Seed&0xffff)
+		a.ConnID, b.ConnID = "7"+tail, tail
+	}
+	intruder := -1
+	if special == 5 {
+		// a legacy client that sends its RDG_IN_DATA request before its RDG_OUT_DATA request
+		// (it is refused); whatever becomes of it, the other tunnels are not its business
+		for i, p := range tw.Plans {
+			if p.Transport == "legacy" {
+				intruder = i
+				p.INFirst = true
+				break
+			}
+		}
+	}
 	if special == 1 {
 		i := c.T.Choose(n)
 		j := (i + 1 + c.T.Choose(n-1)) % n
@@ -523,8 +601,8 @@ func runC07(c *Ctx) {
 	RunTunnels(c, tw.Tuns, 60000)
 	okN := 0
 	for ti, t := range tw.Tuns {
-		if ti == deaf {
-			continue // nothing is demanded for a client that does not read
+		if ti == deaf || ti == intruder {
+			continue // nothing is demanded for a client that does not read / that misbehaves
 		}
 		if !t.Client.Ready && t.Client.Failed == "" && t.Err == "" {
 			t.Client.Failed = "the transport was never accepted (no answer to the last request)"
